@@ -122,6 +122,7 @@ def run(prop, repo, seed):
     t0 = time.time()
     fd = extract.facts_dir(repo, 'all')
     F, roles, R = engine.run_all(fd)
+    sc = checkmod.engine_selfcheck(R, prop)
     extra_viol = []
     configs = ['workspace --all-features (lib targets)']
     per_config = {}
@@ -155,7 +156,7 @@ def run(prop, repo, seed):
     survived = [t for t in table if t['verdict'] == 'SURVIVED']
     false_alarm = [t for t in table if t['verdict'] == 'FALSE-ALARM']
     silent_ok = sum(1 for t in table if t['verdict'] == 'ok-silent')
-    extra = {'configurations': configs, 'per_configuration': per_config,
+    extra = {'engine_selfcheck': sc, 'configurations': configs, 'per_configuration': per_config,
              'self_test': {'mutants': len(table), 'killed': killed, 'survived': [t['id'] for t in survived], 'equivalent_silent': silent_ok,
                            'false_alarms_on_equivalent': [t['id'] for t in false_alarm], 'skipped': [t['id'] for t in table if t['verdict'] in ('skipped', 'build-failed')],
                            'matrix': table}}
